@@ -8,6 +8,8 @@ from orquestra.quantum.estimation._estimation import (estimate_expectation_value
     calculate_exact_expectation_values)
 from orquestra.quantum.api.estimation import EstimationTask
 from orquestra.quantum.api.circuit_runner import BaseCircuitRunner
+from orquestra.quantum.api.wavefunction_simulator import BaseWavefunctionSimulator
+from orquestra.quantum.wavefunction import Wavefunction
 from orquestra.quantum.operators import PauliTerm, PauliSum
 from orquestra.quantum.measurements import Measurements
 from orquestra.quantum.measurements.measurements import get_expectation_value_from_frequencies
@@ -20,8 +22,11 @@ H = Harness("C15", ["OQ.Base.CaseEq", "OQ.Stats.Estimation", "OQ.Stats.Estimatio
             "returning recorded bitstrings, sometimes more shots than asked, sometimes too few/many results; invalid stream: "
             "shots None/negative, non-Ising operators, qubit out of range), sim-* (same task lists on X-gate circuits run with "
             "SymbolicSimulator, shots 1-50), freq (counts and frequency average vs per-shot mean), split, nonmeasured (incl. the RuntimeError branch), bind (symbolic circuits, "
-            "per-task maps, unequal list lengths), exact-basis (model) and exact-general (oracle: quadratic form with dense "
-            "matrices); non-trivial = at least two tasks of different kinds, or a measured operator with two or more terms")
+            "per-task maps, unequal list lengths), exact-basis (model), exact-model (calculate_exact_expectation_values with a "
+            "scripted wavefunction simulator returning dyadic unit states of 1-3 qubits, per-task circuits of different widths, "
+            "X/Y/Z operators with gaps, constants and some complex coefficients, empty sums, operators wider than the state; "
+            "compared with the model built on C09's get_expectation over Gaussian rationals) and exact-general (SymbolicSimulator "
+            "on rotation circuits, oracle only: quadratic form with dense matrices); non-trivial = at least two tasks of different kinds, or a measured operator with two or more terms")
 
 ERR = {"ValueError": "EValue", "TypeError": "EType", "IndexError": "EIndex", "RuntimeError": "ERuntime"}
 
@@ -211,11 +216,89 @@ def gen_meas(rng, nq):
     pool = [[rng.randint(0, 1) for _ in range(nq)] for _ in range(rng.randint(1, 4))]
     return [rng.choice(pool) for _ in range(n)]
 
+def g_coef(rng):
+    """(re + i im) / 2^e, mostly real"""
+    e = rng.randint(0, 3)
+    re = rng.randint(-12, 12)
+    im = rng.randint(-12, 12) if rng.random() < 0.25 else 0
+    return [re, im, e]
+
+def g_state(rng, n):
+    """dyadic unit state (same construction as the C09 harness): weights 2^-k on distinct basis states, amplitude of
+    weight 2^-k is a unit times 2^(-k/2) (k even) or (+-1 +-i) 2^(-(k+1)/2) (k odd); [[re, im, e], ...]"""
+    d = 2 ** n
+    ws = [0]
+    while len(ws) < d and rng.random() < 0.8:
+        i = rng.randrange(len(ws))
+        if ws[i] >= 6:
+            break
+        ws[i] += 1
+        ws.insert(i, ws[i])
+    pos = rng.sample(range(d), len(ws))
+    amps = [[0, 0, 0] for _ in range(d)]
+    for p, k in zip(pos, ws):
+        if k % 2 == 0:
+            re, im = rng.choice([(1, 0), (-1, 0), (0, 1), (0, -1)])
+            amps[p] = [re, im, k // 2]
+        else:
+            amps[p] = [rng.choice([1, -1]), rng.choice([1, -1]), (k + 1) // 2]
+    return amps
+
+def gnum(c):
+    return complex(c[0], c[1]) / 2 ** c[2]
+
+def c_gnum(c):
+    return f"(xnum {cz(c[0])} {cz(c[1])} {cnat(c[2])})"
+
+def c_gterm(t):
+    c, ops = t
+    return f"(xterm {cz(c[0])} {cz(c[1])} {cnat(c[2])} {clist(ops, lambda qp: cpair(cnat(qp[0]), 'P' + qp[1]))})"
+
+def dyadic_triple(x):
+    f = Fraction(float(x))
+    e = f.denominator.bit_length() - 1
+    assert f.denominator == 2 ** e
+    return [f.numerator, 0, e]
+
+class ScriptedSimulator(BaseWavefunctionSimulator):
+    """Keeps the library's get_exact_expectation_values and answers get_wavefunction from a script."""
+
+    def __init__(self, table):
+        super().__init__()
+        self.table = table          # list of (circuit object, amplitudes)
+
+    def _get_wavefunction_from_native_circuit(self, circuit, initial_state):
+        raise NotImplementedError
+
+    def get_wavefunction(self, circuit, initial_state=None):
+        for c, amps in self.table:
+            if c is circuit:
+                return Wavefunction(np.array(amps, dtype=complex))
+        raise KeyError("unknown circuit")
+
 def gen(rng, tier):
     n = 420 if tier in ("quick", "search") else 8000
     for _ in range(n):
         r = rng.random()
-        if r < 0.42:
+        if r < 0.07:
+            states = [[n, g_state(rng, n)] for n in [rng.randint(1, 3) for _ in range(rng.randint(1, 3))]]
+            tasks = []
+            for _ in range(rng.randint(1, 4)):
+                ci = rng.randrange(len(states))
+                n = states[ci][0]
+                wide = rng.random() < 0.06
+                terms = []
+                for _ in range(rng.choice([0, 1, 1, 2, 2, 3])):
+                    qs = sorted(rng.sample(range(n + (1 if wide else 0)), rng.randint(1, n)))
+                    if wide:
+                        qs[-1] = n
+                    terms.append([g_coef(rng), [[q, rng.choice("XYZ")] for q in qs]])
+                if rng.random() < 0.4:
+                    terms.insert(rng.randint(0, len(terms)), [g_coef(rng), []])
+                form = "term" if len(terms) == 1 and rng.random() < 0.5 else "sum"
+                tasks.append(dict(op=dict(form=form, terms=terms), circ=ci))
+            yield dict(kind="exact-model", states=states, tasks=tasks)
+        elif r < 0.42:
             nq = rng.randint(1, 4)
             invalid = rng.random() < 0.15
             tasks = gen_tasks(rng, lambda c: nq, 4, invalid)
@@ -467,6 +550,39 @@ def run_case(inp):
         chk = " && ".join([f"exact_eqb {c_op(t['op'])} {c_xc(circs[t['circ']])} {cq(v)}" for t, v in zip(tasks, vals)]
                           + [cbool(len(out) == len(tasks))])
         return dict(chk=chk, oracle_ok=ok, oracle_msg=msg, kind=kind,
+                    nontrivial=len(tasks) >= 2 or any(len(t["op"]["terms"]) >= 2 for t in tasks))
+    if kind == "exact-model":
+        states, tasks = inp["states"], inp["tasks"]
+        circuits = [Circuit([X(0)] * (i + 1), n_qubits=st_[0]) for i, st_ in enumerate(states)]
+        sim = ScriptedSimulator([(c, [gnum(a) for a in st_[1]]) for c, st_ in zip(circuits, states)])
+        def mk(op):
+            terms = [PauliTerm({int(q): p for q, p in ops}, gnum(c) if c[1] else float(gnum(c).real)) for c, ops in op["terms"]]
+            return terms[0] if op["form"] == "term" else PauliSum(terms)
+        py_tasks = [EstimationTask(mk(t["op"]), circuits[t["circ"]], None) for t in tasks]
+        st, out = outcome(lambda: [(np.asarray(e.values).reshape(-1).tolist(), e.correlations, e.estimator_covariances)
+                                   for e in calculate_exact_expectation_values(sim, py_tasks)], timeout=60)
+        wide = any(q >= states[t["circ"]][0] for t in tasks for _, ops in t["op"]["terms"] for q, _ in ops)
+        if st == "ok":
+            ok, msg = (not wide) and len(out) == len(tasks), "" if not wide else "operator wider than the state accepted"
+            vals = []
+            for t, (v, corr, cov) in zip(tasks, out):
+                n, amps = states[t["circ"]]
+                psi = np.array([gnum(a) for a in amps])
+                m = np.zeros((2 ** n, 2 ** n), dtype=complex)
+                for c, ops in t["op"]["terms"]:
+                    d = dict((q, p) for q, p in ops)
+                    m += gnum(c) * _kron([_P[d.get(q, "I")] for q in range(n)])
+                want = (psi.conj() @ m @ psi).real
+                if len(v) != 1 or isinstance(v[0], complex) or abs(v[0] - want) > 1e-12 or corr is not None or cov is not None:
+                    ok, msg = False, f"exact value {v} for {t['op']} in state {amps}: quadratic form is {want}"
+                vals.append([dyadic_triple(x) for x in v])
+            coq = "(Some " + clist(vals, lambda v: clist(v, c_gnum)) + ")"
+        else:
+            ok, msg = wide, "" if wide else f"raised {out} on operators that fit their states"
+            coq = "None"
+        chk = (f"exactm_eqb {clist(states, lambda s_: cpair(cnat(s_[0]), clist(s_[1], c_gnum)))} "
+               f"{clist(tasks, lambda t: cpair(clist(t['op']['terms'], c_gterm), cnat(t['circ'])))} {coq}")
+        return dict(chk=chk, oracle_ok=ok, oracle_msg=msg, kind=kind + ("" if st == "ok" else "-rejected"),
                     nontrivial=len(tasks) >= 2 or any(len(t["op"]["terms"]) >= 2 for t in tasks))
     if kind == "exact-general":
         nq, tasks = inp["nq"], inp["tasks"]
